@@ -148,7 +148,9 @@ def json_keys_ok(m) -> bool:
     return True
 
 
-CARRIERS = ["str", "bytes", "bytearray", "memoryview(bytes)", "memoryview(bytearray)"]
+# (the last one: a memoryview that is a *window* into a larger buffer - a slice of a receive buffer; still "the same bytes given as
+# memoryview")
+CARRIERS = ["str", "bytes", "bytearray", "memoryview(bytes)", "memoryview(bytearray)", "memoryview(window)"]
 
 
 def carrier_src(text: str, carrier: str) -> str:
@@ -159,13 +161,15 @@ def carrier_src(text: str, carrier: str) -> str:
         "bytearray": f"bytearray({b!r})",
         "memoryview(bytes)": f"memoryview({b!r})",
         "memoryview(bytearray)": f"memoryview(bytearray({b!r}))",
+        "memoryview(window)": f"memoryview({b'17' + b + b'30M'!r})[2:{2 + len(b)}]",
     }[carrier]
 
 
 def carry(text: str, carrier: str):
     b = text.encode("utf-8")
     return {"str": lambda: text, "bytes": lambda: b, "bytearray": lambda: bytearray(b),
-            "memoryview(bytes)": lambda: memoryview(b), "memoryview(bytearray)": lambda: memoryview(bytearray(b))}[carrier]()
+            "memoryview(bytes)": lambda: memoryview(b), "memoryview(bytearray)": lambda: memoryview(bytearray(b)),
+            "memoryview(window)": lambda: memoryview(b"17" + b + b"30M")[2:2 + len(b)]}[carrier]()
 
 
 @st.composite
